@@ -1,4 +1,5 @@
 import DeltaModel.LineNumbers
+set_option linter.unusedSimpArgs false
 /-!
 Helper lemmas for C05, part 2: the unified view. Specification (`trueRows`) and the invariant of
 `handle_hunk_line`'s buffer discipline.
